@@ -145,7 +145,10 @@ class _Cap(Exception):
     pass
 
 
-def _mk_model(X0, t0, props, stops, log, ravel, dkind, name='m'):
+def _mk_model(X0, t0, props, stops, log, ravel, dkind, name='m', clock=False):
+    """clock=True: the LAST entry of the state is a scalar that starts at t0 and has derivative 1 (f = 1): it must be
+    bit-identical with the time at every callback (x + 1.0*dt and currTime + dt are the same IEEE operation), i.e. the
+    clock advances by exactly the step the iterator used for the state update"""
     vlib.use_repo()
     from kawin.GenericModel import GenericModel
 
@@ -154,7 +157,19 @@ def _mk_model(X0, t0, props, stops, log, ravel, dkind, name='m'):
             super().__init__()
             self.X, self.t = X0, t0
             self.times, self.ndt, self.fp_bad = [], 0, []
+            self.clocks, self.clock_bad = [], []
             self.ref = fingerprint(X0)
+
+        def _clock(self, where, x, t):
+            if not clock:
+                return None
+            try:
+                v = float(x[-1])
+            except Exception:      # structure broken: reported by the fingerprint check
+                return None
+            if v != float(t) and len(self.clock_bad) < 3:
+                self.clock_bad.append((name, where, len(self.times), float(t), v))
+            return v
 
         def _see(self, where, x):
             fp = fingerprint(x)
@@ -167,9 +182,12 @@ def _mk_model(X0, t0, props, stops, log, ravel, dkind, name='m'):
 
         def getdXdt(self, t, x):
             self._see('getdXdt', x)
+            self._clock('getdXdt', x, t)
             out = []
-            for xi in x:
-                if np.ndim(xi) == 0:
+            for i, xi in enumerate(x):
+                if clock and i == len(x) - 1:
+                    out.append(1.0)
+                elif np.ndim(xi) == 0:
                     out.append(0.25 if dkind == 'const' else -0.5 * float(xi))
                 else:
                     a = np.asarray(xi, float)
@@ -188,6 +206,7 @@ def _mk_model(X0, t0, props, stops, log, ravel, dkind, name='m'):
 
         def postProcess(self, time, x):
             self._see('postProcess', x)
+            self.clocks.append(self._clock('postProcess', x, time))
             self.times.append(time)
             self.t, self.X = time, x
             if len(self.times) > CAP:
@@ -237,15 +256,18 @@ def _real_run(case):
     from kawin.GenericModel import Coupler
     t0, sim, mn, mx = case['t0'], case['sim'], case['mn'], case['mx']
     log, seen = {}, []
+    clock = bool(case.get('clock'))
     it = _iterator(case['iterator'], case['wrap'], seen)
-    out = dict(times=None, seen=seen, err=None, fp_bad=[], capped=False)
+    out = dict(times=None, seen=seen, err=None, fp_bad=[], capped=False, clock_bad=[], clocks=[])
     try:
         if case['entry'] == 'model':
-            m = _mk_model(case['X0'][0], t0, case['props'][0], case['stops'][0], log, case['ravel'][0], case['dkind'])
-            m.solve(sim, solverType=it, minDtFrac=mn, maxDtFrac=mx)
-            out['times'], out['fp_bad'] = m.times, m.fp_bad
+            m = _mk_model(case['X0'][0], t0, case['props'][0], case['stops'][0], log, case['ravel'][0], case['dkind'], clock=clock)
+            try:
+                m.solve(sim, solverType=it, minDtFrac=mn, maxDtFrac=mx)
+            finally:
+                out['times'], out['fp_bad'], out['clock_bad'], out['clocks'] = m.times, m.fp_bad, m.clock_bad, m.clocks
         elif case['entry'] == 'coupler':
-            ms = [_mk_model(case['X0'][i], t0, case['props'][i], case['stops'][i], log, case['ravel'][i], case['dkind'], 'm%d' % i)
+            ms = [_mk_model(case['X0'][i], t0, case['props'][i], case['stops'][i], log, case['ravel'][i], case['dkind'], 'm%d' % i, clock=clock)
                   for i in range(len(case['X0']))]
             c = Coupler(ms)
             c.time = np.array([t0])
@@ -254,18 +276,27 @@ def _real_run(case):
             finally:
                 out['times'] = ms[0].times
                 out['fp_bad'] = [b for m in ms for b in m.fp_bad]
+                out['clock_bad'] = [b for m in ms for b in m.clock_bad]
+                out['clocks'] = ms[0].clocks
                 out['sub_times'] = [list(m.times) for m in ms]
                 out['coupler_time'] = c.time.tolist()
         else:   # DESolver used directly on a flat array
             s = DESolver(it, minDtFrac=mn, maxDtFrac=mx)
             props, stops = case['props'][0], case['stops'][0]
-            st = dict(n=0, times=[], bad=[])
+            st = dict(n=0, times=[], bad=[], clock_bad=[], clocks=[])
             x0 = np.asarray(case['X0'][0][0], float)
+            if clock:       # last component: starts at t0, derivative 1
+                x0 = np.concatenate([x0, [float(t0)]])
 
             def f(t, x):
                 if np.shape(x) != x0.shape:
                     st['bad'].append(('desolver', 'f', np.shape(x), x0.shape))
-                return -0.5 * x
+                d = -0.5 * x
+                if clock and np.shape(x) == x0.shape:
+                    d[-1] = 1.0
+                    if float(x[-1]) != float(t) and len(st['clock_bad']) < 3:
+                        st['clock_bad'].append(('desolver', 'f', len(st['times']), float(t), float(x[-1])))
+                return d
 
             def getdt(dXdt):
                 v = props[st['n'] % len(props)]; st['n'] += 1; return v
@@ -273,6 +304,10 @@ def _real_run(case):
             def post(t, x):
                 if np.shape(x) != x0.shape:
                     st['bad'].append(('desolver', 'postProcess', np.shape(x), x0.shape))
+                elif clock:
+                    st['clocks'].append(float(x[-1]))
+                    if float(x[-1]) != float(t) and len(st['clock_bad']) < 3:
+                        st['clock_bad'].append(('desolver', 'postProcess', len(st['times']), float(t), float(x[-1])))
                 st['times'].append(t)
                 if len(st['times']) > CAP:
                     raise _Cap()
@@ -284,6 +319,7 @@ def _real_run(case):
                 s.solve(t0, x0, t0 + sim)
             finally:
                 out['times'], out['fp_bad'] = st['times'], st['bad'][:3]
+                out['clock_bad'], out['clocks'] = st['clock_bad'], st['clocks']
     except _Cap:
         out['capped'] = True
     except Exception as e:        # the solver must not fall over on any numeric proposal
@@ -317,8 +353,10 @@ def gen_case(rng):
         ravel = [False]
     else:
         X0 = [gen_state(rng, allow_nd=ravel[i]) for i in range(nm)]
+    if entry != 'desolver':      # the clock entry (f = 1, starts at t0) goes last; DESolver entry: appended in _real_run
+        X0 = [X + [float(t0)] for X in X0]
     return dict(mode=mode, t0=t0, sim=sim, mn=mn, mx=mx, entry=entry, iterator=rng.choice(['euler', 'rk4']),
-                wrap=rng.random() < 0.4, props=props, stops=stops, ravel=ravel, X0=X0, dkind=rng.choice(['const', 'decay']))
+                wrap=rng.random() < 0.4, props=props, stops=stops, ravel=ravel, X0=X0, dkind=rng.choice(['const', 'decay']), clock=True)
 
 
 def witnesses():
@@ -328,7 +366,8 @@ def witnesses():
     out = []
     for entry, it in (('desolver', 'euler'), ('model', 'rk4')):
         out.append(dict(mode='dyadic', t0=16777216.0, sim=4.0, mn=1 / 16, mx=1.0, entry=entry, iterator=it, wrap=False,
-                        props=[[np.float32(0.5)]], stops=[[]], ravel=[False], X0=[[np.array([1.0, 2.0])]], dkind='decay'))
+                        props=[[np.float32(0.5)]], stops=[[]], ravel=[False], dkind='decay', clock=True,
+                        X0=[[np.array([1.0, 2.0])] + ([16777216.0] if entry != 'desolver' else [])]))
     return out
 
 
@@ -342,6 +381,8 @@ def effective_script(case):
 
 def describe(case):
     d = {k: case[k] for k in ('mode', 't0', 'sim', 'mn', 'mx', 'entry', 'iterator', 'wrap', 'ravel', 'dkind')}
+    d['kind'] = 'script-run'
+    d['clock'] = bool(case.get('clock'))
     d['tf'] = case['t0'] + case['sim']
     d['proposals'] = [[repr(v) for v in p] for p in case['props']]
     d['stops'] = case['stops']
@@ -372,6 +413,24 @@ def oracle(res, case, run, desc):
             res.violate('steps-with-nonpositive-duration', 'steps were taken although tf <= t0', desc, times[:3], [])
         return
     tol = 0.0 if exact else 4 * math.ulp(max(abs(tf), abs(t0)))
+    # 0. time bookkeeping: t_{k+1} = t_k + dt_k with dt_k the step the iterator used for the state update.
+    #    (a) an f = 1 entry that starts at t0 is the clock: x + 1.0*dt and currTime + dt are the same IEEE operation, so the
+    #        two are bit-identical at every callback, for both iterators and any doubles (theorem solveX_const / _clock_*)
+    #    (b) the step a custom iterator wrapper saw returned
+    if run.get('clock_bad'):
+        b = run['clock_bad'][0]
+        res.violate('clock-state-differs-from-time-' + site,
+                    'an entry with derivative 1 that started at t0 was handed to %s of %s (accepted step %d) with value %r at time %r: the time does not equal '
+                    'previous time + the step the iterator used for the state update' % (b[1], b[0], b[2], b[4], b[3]), desc, b[4], b[3])
+    if run['seen'] and len(run['seen']) == len(times):
+        prev = t0
+        for i, (sn, t) in enumerate(zip(run['seen'], times)):
+            if float(sn[0]) != prev or prev + float(sn[1]) != t:
+                res.violate('time-not-previous-plus-step-' + site,
+                            'accepted time %d is %r, but the iterator was called at %r (previous accepted time %r) and returned the step %r: %r expected' % (
+                                i, t, float(sn[0]), prev, float(sn[1]), prev + float(sn[1])), desc, t, prev + float(sn[1]))
+                break
+            prev = t
     # 1. strictly increasing
     prev = t0
     for i, t in enumerate(times):
@@ -573,8 +632,9 @@ def corr(ctx, oracle_only=False, nmul=1):
         props, stops = effective_script(c)
         c['_eff'] = (props, stops)
         cases.append(c)
-        lines.append('sol.run %s %s %s %s %s %d %s %d' % (f2b(c['t0']), f2b(c['t0'] + c['sim']), f2b(c['mn']), f2b(c['mx']),
-                                                          enc_list(props), len(stops), ' '.join(vlib.enc_bool(s) for s in stops), CAP + 1))
+        lines.append('sol.runx %s %s %s %s %s %d %s %d %s %s' % (f2b(c['t0']), f2b(c['t0'] + c['sim']), f2b(c['mn']), f2b(c['mx']),
+                                                                 enc_list(props), len(stops), ' '.join(vlib.enc_bool(s) for s in stops), CAP + 1,
+                                                                 'E' if c['iterator'] == 'euler' else 'R', f2b(c['t0'])))
     lines = [' '.join(l.split()) for l in lines]
     model = vlib.run_driver(PROP, lines) if (ctx.driver_ok and not oracle_only) else None
     for k, c in enumerate(cases):
@@ -595,7 +655,7 @@ def corr(ctx, oracle_only=False, nmul=1):
             t = Toks(model[k])
             if not t.ok:
                 res.disagree('sol.run model error', desc, 'ok', t.err); continue
-            n = t.nat(); mstop = t.bool(); mcur = t.flt(); t.flt(); mtimes = t.flts(); mdts = t.flts()
+            n = t.nat(); mstop = t.bool(); mcur = t.flt(); t.flt(); mtimes = t.flts(); mdts = t.flts(); mclk = t.flts()
             if run['capped']:
                 if n <= CAP:
                     res.disagree('implementation did not terminate, model did', desc, 'capped at %d' % CAP, n)
@@ -609,6 +669,14 @@ def corr(ctx, oracle_only=False, nmul=1):
                 res.disagree('accepted time %d' % i, desc, times[max(0, i - 1):i + 2], mtimes[max(0, i - 1):i + 2])
             else:
                 res.traces += 1
+                # the state of the f = 1 entry after every accepted step: the loop with the state carried along (runXs)
+                clk = run.get('clocks') or []
+                if c.get('clock') and len(clk) == len(mclk) and all(v is not None for v in clk):
+                    if any(ulps(a, b) > lim for a, b in zip(clk, mclk)):
+                        i = next(i for i, (a, b) in enumerate(zip(clk, mclk)) if ulps(a, b) > lim)
+                        res.disagree('state of the f = 1 entry after accepted step %d' % i, desc, clk[max(0, i - 1):i + 2], mclk[max(0, i - 1):i + 2])
+                    else:
+                        res.count('clock-trace-validated')
             if run['seen'] and len(run['seen']) == len(mdts):
                 if any(ulps(float(s[1]), d) > lim for s, d in zip(run['seen'], mdts)):
                     res.disagree('step sizes seen by the iterator wrapper', desc, [float(s[1]) for s in run['seen']][:6], mdts[:6])
@@ -668,7 +736,9 @@ def replay(ctx, entry):
     X0 = []
     for shp in c['state_shapes']:
         X0.append([1.5 if not s else np.ones(tuple(s)) for s in shp])
-    case = dict(mode=c['mode'], t0=c['t0'], sim=c['sim'], mn=c['mn'], mx=c['mx'], entry=c['entry'], iterator=c['iterator'], wrap=c['wrap'],
+        if c.get('clock') and c['entry'] != 'desolver':
+            X0[-1][-1] = float(c['t0'])
+    case = dict(clock=bool(c.get('clock')), mode=c['mode'], t0=c['t0'], sim=c['sim'], mn=c['mn'], mx=c['mx'], entry=c['entry'], iterator=c['iterator'], wrap=c['wrap'],
                 props=[[conv(v) for v in p] for p in c['proposals']], stops=c['stops'], ravel=c['ravel'], X0=X0, dkind=c['dkind'])
     res = Result()
     oracle(res, case, real_run(case), describe(case))
